@@ -422,8 +422,11 @@ func (h *Hub) topicUnreg(sess *Session, topic string, msg *ClientComMessage, rea
 			sess.queueOut(ErrLockedReply(msg, now))
 		} else if t != nil {
 			// Case 1.1: topic is online
-			if (!asUid.IsZero() && t.owner == asUid) || (t.cat == types.TopicCatP2P && t.subsCount() < 2) {
-				// Case 1.1.1: requester is the owner or last sub in a p2p topic
+			// The subscribers of a live topic belong to the topic's goroutine and cannot be counted here.
+			// A p2p topic counts them itself: when its last participant has unsubscribed it pauses itself
+			// and sends a request without a session; a participant's request is forwarded to the topic.
+			if (!asUid.IsZero() && t.owner == asUid) || (t.cat == types.TopicCatP2P && sess == nil && msg == nil) {
+				// Case 1.1.1: requester is the owner or a p2p topic left without subscribers
 				t.markPaused(true)
 				hard := true
 				if msg != nil && msg.Del != nil {
